@@ -14,8 +14,8 @@ DSETS = {
     "ascii": ["<%", "%>", "<<", ">>", "<#", "#>"],
     "multibyte": ["«", "»", "¿", "¡", "§", "¶"],      # all 2-byte characters with lead byte 0xC2
 }
-WS = [" ", "\n", "\t", "  \n ", "\r\n", " \t "]
-CORES = ["x", "a{b", "%}", "}}", "#}", "a-b", "-", "é", "©ë", "世", "x}", "{ y", "%", "a # b", "}-", "\U0001F600", "a b", "->"]
+WS = [" ", "\n", "\t", "  \n ", "\r\n", " \t ", "\u00a0", " \u2003\n", "\u3000 ", "\u0085", "\x0b\x0c"]     # Unicode White_Space, as str::trim
+CORES = ["x", "a{b", "%}", "}}", "#}", "a-b", "-", "é", "©ë", "世", "x}", "{ y", "%", "a # b", "}-", "\U0001F600", "a b", "->", "\u200b", "\u200bx\ufeff"]   # zero-width space / BOM are NOT whitespace
 RAWCORES = ["r", "{{ not }}", "{% if %}", "{# c #}", "{{- x -}}", "<< y >>", "¿ z ¡", "{% endra %}", "©-«", "{%- if x %} y", "{%- endra", "<%- z", "a -%}", "{%- raw -%}"]
 
 
@@ -133,7 +133,7 @@ def run(tier):
     k = len(meta) // 2
     C.sample({"segments": vecs[meta[k][0]]["src"], "delims": meta[k][2], "src": meta[k][3], "expected": meta[k][4]})
     C.sample({"src": meta[5][3], "expected": meta[5][4], "delims": meta[5][2]})
-    C.assumptions += ["whitespace at a facing end is ASCII (space, tab, CR, LF); non-ASCII whitespace is not placed at facing ends",
+    C.assumptions += ["whitespace = characters with the Unicode White_Space property (what str::trim removes): ASCII space/tab/CR/LF/VT/FF and U+0085, U+00A0, U+2003, U+3000 are placed at facing ends; U+200B and U+FEFF are not whitespace and are kept",
                       "cores never end with the first byte of a start delimiter"]
     return C.finish()
 
